@@ -161,8 +161,6 @@ def run(tier):
                 ez = [b.GetIdx() for b in iso.GetBonds() if b.GetStereo() in (Chem.BondStereo.STEREOE, Chem.BondStereo.STEREOZ)]
                 for v in range(n_var + (1 if ez else 0)):
                     kind = ("respell", "renumber", "shuffle-bonds")[v % 3] if v < n_var else "cis-trans-annotation"
-                    if charged and kind not in ("renumber", "cis-trans-annotation"):
-                        kind = "renumber"
                     try:
                         if kind == "respell":
                             m2, how = rdk.respell(iso, rnd)
